@@ -191,6 +191,19 @@ func HighLevel(text []byte, ch Chooser, probe Probe) []bool {
 			}
 			continue
 		}
+		// FNC1 as FLG(0) (Punct code 0 followed by three zero bits): decodes to
+		// the GS character (29), which is also in the Mixed table
+		if c == 29 && ch.Intn(2) == 0 {
+			if mode != Punct {
+				out.put(0, width(mode)) // P/S
+				probe("shift.PS")
+			}
+			out.put(0, 5)
+			out.put(0, 3)
+			probe("flg0")
+			i++
+			continue
+		}
 		// two-character punctuation codes
 		if i+1 < n {
 			if code, ok := punctPairs[string(text[i:i+2])]; ok && coin(4) > 0 {
